@@ -26,14 +26,10 @@ impl Decimal {
         Decimal { coef, exp }
     }
 
+    #[allow(dead_code)] // exercised by the unit tests
     pub fn lcm(&self, other: &Decimal) -> Decimal {
-        if self.coef == 0 || other.coef == 0 {
-            return Decimal::new(0, 0);
-        }
-        let a = self.coef * 10u32.pow(other.exp.saturating_sub(self.exp));
-        let b = other.coef * 10u32.pow(self.exp.saturating_sub(other.exp));
-        let coef = (a * b) / gcd(a, b);
-        Decimal::new(coef, self.exp.max(other.exp))
+        self.checked_lcm(other)
+            .expect("least common multiple does not fit the representation")
     }
 
     /// Like [`Decimal::lcm`], but `None` when the result does not fit the representation.
@@ -83,14 +79,6 @@ fn gcd64(a: u64, b: u64) -> u64 {
         a
     } else {
         gcd64(b, a % b)
-    }
-}
-
-fn gcd(a: u32, b: u32) -> u32 {
-    if b == 0 {
-        a
-    } else {
-        gcd(b, a % b)
     }
 }
 
